@@ -425,6 +425,18 @@ def stepColl (st : St) (cid : String) (c : Coll) (toks : List String) : St × St
       let c' := { (c.dropTxn tid) with store := s.rollback t }
       let (c', tr) := trigDelta c'
       fin c' ("rolledback" ++ tr)
+  | "sparse" :: offs =>
+    -- sparse population through `Replay` (public API): one crafted commit of insert markers per chunk
+    match offs.mapM String.toNat? with
+    | none => (st, "bad-op")
+    | some os =>
+      let chunks := (os.map (· / 16384)).foldl (fun acc x => insertDedup x acc) []
+      let s' := chunks.foldl (fun (s : Store) ch =>
+        let buf := (Buf.empty rowColumn).putAll ((os.filter (fun o => o / 16384 = ch)).map (fun o => (⟨opInsert, o, .fixed 0 []⟩ : Op)))
+        s.replay ch [buf]) s
+      let c' := { c with store := s' }
+      let (c', tr) := trigDelta c'
+      fin c' ("ok" ++ tr)
   | ["dump"] => (st, dump s)
   | ["count"] => (st, s!"count={s.count}")
   | ["snapshot", sid] =>
